@@ -597,6 +597,10 @@ def lean_ty(t):
         return "Ordering"
     if t == "Formatter":
         return "Std.FmtSpec"
+    if t == "()":
+        return "Unit"
+    if t == "HashFeed":
+        return "(List Int)"         # the sequence of `write_i128` calls made on the Hasher
     if t in ("str", "AsciiDecLit", "String", "Written") or t == ("slice", "u8"):
         return "(List Nat)"         # a string / byte slice / the parser's cursor (a struct around its remaining slice): its bytes
     if isinstance(t, tuple) and t[0] == "Result":
@@ -745,6 +749,10 @@ class Emit:
                 return "Decimal"
             if m == "unwrap" and isinstance(rt, tuple) and rt[0] == "Option":
                 return rt[1]
+            if rt == "Decimal" and m in getattr(self, "method_override", {}) and self.method_override[m][0] in self.sigs:
+                return self.method_override[m][1]
+            if rt == "Ordering" and m == "reverse":
+                return "Ordering"
             if rt == "Decimal" and m in DEC_K_METHODS and DEC_K_METHODS[m][0] in self.sigs:
                 return DEC_K_METHODS[m][1]
             if m == "as_str":
@@ -1297,6 +1305,12 @@ class Emit:
                 raise Unsupported("effect inside a closure")
             return lr, f"(if {xr} = true then some ({xb}) else none)"
         t = self.type_of(recv, hint)
+        if t == "Decimal" and m in getattr(self, "method_override", {}) and self.method_override[m][0] in self.sigs:
+            # a method that resolves to another impl than the Decimal/Decimal one (e.g. on an `ArchivedDecimal` receiver)
+            return self.call(("call", [self.method_override[m][0]], [recv] + list(args)), hint)
+        if t == "Ordering" and m == "reverse" and not args:
+            lr, xr = self.ex(recv, t)
+            return lr, f"(Ordering.swap ({xr}))"
         if m == "div_rounded" and len(args) == 2:
             kinds = ("d" if t == "Decimal" else "i", "d" if self.type_of(args[0]) == "Decimal" else "i")
             target = TRAIT_CALLS[("DivRounded", "div_rounded")].get(kinds)
@@ -2120,7 +2134,7 @@ class Emit:
 
 
 # ----------------------------------------------------------------------------- driver
-GROUP_IMPORTS = {"KQuant": ["Fpdec.Gen.KDecOps", "Fpdec.Gen.KIntOps", "Fpdec.Model.Decimal"], "KNumTraits": ["Fpdec.Gen.KCmp", "Fpdec.Gen.KAddSub", "Fpdec.Gen.KDecUnops", "Fpdec.Gen.KIntConv", "Fpdec.Gen.KFromStr", "Fpdec.Model.Decimal"], "KMisc": ["Fpdec.Gen.KCmp", "Fpdec.Gen.KFromStr", "Fpdec.Gen.KIntoFloat", "Fpdec.Model.Float"], "KTls": [], "KFormat": ["Fpdec.Gen.KDivRounded", "Fpdec.Gen.Consts", "Fpdec.Model.Format"], "KParse": ["Fpdec.Gen.KSwar", "Fpdec.Gen.Consts", "Fpdec.Model.Parser"], "KMagn": ["Fpdec.Gen.KLog", "Fpdec.Gen.Consts", "Fpdec.Model.Decimal"], "KRatio": ["Fpdec.Gen.KPow", "Fpdec.Model.Decimal"], "KPow": ["Fpdec.Gen.Consts"], "KDivRounded": ["Fpdec.Gen.KRound", "Fpdec.Gen.KPow", "Fpdec.Model.Core"],
+GROUP_IMPORTS = {"KQuant": ["Fpdec.Gen.KDecOps", "Fpdec.Gen.KIntOps", "Fpdec.Model.Decimal"], "KNumTraits": ["Fpdec.Gen.KCmp", "Fpdec.Gen.KAddSub", "Fpdec.Gen.KDecUnops", "Fpdec.Gen.KIntConv", "Fpdec.Gen.KFromStr", "Fpdec.Model.Decimal"], "KMisc": ["Fpdec.Gen.KCmp", "Fpdec.Gen.KFromStr", "Fpdec.Gen.KIntoFloat", "Fpdec.Model.Float"], "KTls": [], "KFormat": ["Fpdec.Gen.KDivRounded", "Fpdec.Gen.Consts", "Fpdec.Model.Format"], "KParse": ["Fpdec.Gen.KSwar", "Fpdec.Gen.Consts", "Fpdec.Model.Parser"], "KMagn": ["Fpdec.Gen.KLog", "Fpdec.Gen.Consts", "Fpdec.Model.Decimal"], "KRatio": ["Fpdec.Gen.KPow", "Fpdec.Model.Decimal"], "KRkyv": ["Fpdec.Gen.KPow", "Fpdec.Model.Decimal"], "KHash": ["Fpdec.Gen.KRatio", "Fpdec.Model.Ratio"], "KPow": ["Fpdec.Gen.Consts"], "KDivRounded": ["Fpdec.Gen.KRound", "Fpdec.Gen.KPow", "Fpdec.Model.Core"],
                  "KDecDiv": ["Fpdec.Gen.KDivRounded"], "KDecMul": ["Fpdec.Gen.KDivRounded", "Fpdec.Model.Decimal"], "KNorm": [], "KFromStr": ["Fpdec.Gen.KPow", "Fpdec.Gen.Consts", "Fpdec.Model.Parser"], "KIntoFloat": ["Fpdec.Gen.Consts", "Fpdec.Model.Decimal"], "KIntOps": ["Fpdec.Gen.KDecDiv", "Fpdec.Gen.KNorm", "Fpdec.Gen.Consts", "Fpdec.Model.Decimal"], "KForward": ["Fpdec.Gen.KAddSub", "Fpdec.Gen.KDecOps"], "KIntConv": ["Fpdec.Gen.KPow", "Fpdec.Model.Decimal"], "KCmp": ["Fpdec.Gen.KPow", "Fpdec.Model.Decimal"], "KAddSub": ["Fpdec.Gen.KPow", "Fpdec.Model.Decimal"], "KDecUnops": ["Fpdec.Gen.KUnops", "Fpdec.Gen.KPow", "Fpdec.Model.Decimal"], "KDecOps": ["Fpdec.Gen.KDecDiv", "Fpdec.Gen.KDecMul", "Fpdec.Gen.KNorm", "Fpdec.Gen.Consts", "Fpdec.Model.Decimal"],
                  "KDecRound": ["Fpdec.Gen.KDivRounded", "Fpdec.Model.Decimal"],
                  "KFloat": ["Fpdec.Gen.KNorm", "Fpdec.Gen.Consts", "Fpdec.Model.Core", "Fpdec.Model.Decimal"], "KRem": ["Fpdec.Gen.KPow"], "KDecRem": ["Fpdec.Gen.KRem", "Fpdec.Model.Decimal"],
@@ -2348,6 +2362,36 @@ KERNELS = [
      {"as": "refint_add_ref", "macro": ("forward_ref_binop_decimal_int", 1, None, {"$imp": "Add", "$method": "add", "$t": "i64"}), "occ": 5, "ret": "Decimal"}),
     ("KForward", "src/binops/mod.rs", "$method", "Decimal",
      {"as": "add_assign", "macro": ("forward_op_assign", 0, None, {"$imp": "AddAssign", "$method": "add_assign", "$base_imp": "Add", "$base_method": "add", "T": "Decimal"}), "occ": 0}),
+    ("KRkyv", "src/binops/cmp.rs", "eq", "Decimal", {"as": "archived_eq_archived", "macro": ("impl_partial_eq", 0, 1, None), "generics": {"ArchivedDecimal": "Decimal"}}),
+    ("KRkyv", "src/binops/cmp.rs", "eq", "Decimal", {"as": "archived_eq_decimal", "macro": ("impl_partial_eq", 0, 2, None), "generics": {"ArchivedDecimal": "Decimal"}}),
+    ("KRkyv", "src/binops/cmp.rs", "eq", "Decimal", {"as": "decimal_eq_archived", "occ": 1, "generics": {"ArchivedDecimal": "Decimal"}, "methods": {"eq": ("archived_eq_decimal", "bool")}}),
+    ("KRkyv", "src/binops/cmp.rs", "partial_cmp", "Decimal", {"as": "archived_cmp_archived", "macro": ("impl_partial_ord", 0, 1, None), "generics": {"ArchivedDecimal": "Decimal"}}),
+    ("KRkyv", "src/binops/cmp.rs", "partial_cmp", "Decimal", {"as": "archived_cmp_decimal", "macro": ("impl_partial_ord", 0, 2, None), "generics": {"ArchivedDecimal": "Decimal"}}),
+    ("KRkyv", "src/binops/cmp.rs", "partial_cmp", "Decimal", {"as": "decimal_cmp_archived", "occ": 1, "generics": {"ArchivedDecimal": "Decimal"}, "methods": {"partial_cmp": ("archived_cmp_decimal", ("Option", "Ordering"))}}),
+    ("KRkyv", "src/binops/cmp.rs", "cmp", "Decimal", {"as": "archived_ord_cmp", "occ": 1, "methods": {"partial_cmp": ("archived_cmp_archived", ("Option", "Ordering"))}}),
+    ("KRkyv", "src/binops/cmp.rs", "eq_zero", "Decimal", {"macro": ("impl_basics", 0, 1, None), "as": "archived_eq_zero"}),
+    ("KRkyv", "src/binops/cmp.rs", "eq_one", "Decimal", {"macro": ("impl_basics", 0, 1, None), "as": "archived_eq_one"}),
+    ("KRkyv", "src/binops/cmp.rs", "is_negative", "Decimal", {"macro": ("impl_basics", 0, 1, None), "as": "archived_is_negative"}),
+    ("KRkyv", "src/binops/cmp.rs", "is_positive", "Decimal", {"macro": ("impl_basics", 0, 1, None), "as": "archived_is_positive"}),
+    ("KRkyv", "src/lib.rs", "coefficient", "Decimal", {"as": "decimal_coefficient", "occ": 0}),
+    ("KRkyv", "src/lib.rs", "n_frac_digits", "Decimal", {"as": "decimal_n_frac_digits", "occ": 0}),
+    ("KRkyv", "src/lib.rs", "coefficient", "Decimal", {"as": "archived_coefficient", "occ": 1}),
+    ("KRkyv", "src/lib.rs", "n_frac_digits", "Decimal", {"as": "archived_n_frac_digits", "occ": 1}),
+    # `Archive::resolve` (features rkyv + packed) writes the two fields through raw pointers into the output place; read as the
+    # function "which ArchivedDecimal is written": the two written expressions are kept, everything else must match literally
+    ("KRkyv", "src/lib.rs", "resolve", "Decimal", {"as": "decimal_resolve", "rewrite": [
+        (r"unsafe fn resolve\(\s*&self,\s*_: usize,\s*_: Self::Resolver,\s*out: \*mut Self::Archived,?\s*\) \{\s*"
+         r"core::ptr::addr_of_mut!\(\(\*out\)\.coeff\)\s*\.write_unaligned\(([^;]*?)\);\s*"
+         r"core::ptr::addr_of_mut!\(\(\*out\)\.n_frac_digits\)\s*\.write_unaligned\(([^;]*?)\);\s*\}",
+         r"fn resolve(&self) -> Decimal { Decimal { coeff: \1, n_frac_digits: \2 } }")]}),
+    ("KRkyv", "src/lib.rs", "serialize", "Decimal", {"as": "decimal_serialize", "ret": ("Result", "()", "DecimalError"), "rewrite": [
+        (r"fn serialize\(&self, _: &mut S\) -> Result<Self::Resolver, S::Error>", "fn serialize(&self) -> Result<(), DecimalError>")]}),
+    ("KRkyv", "src/lib.rs", "deserialize", "Decimal", {"as": "archived_deserialize", "ret": ("Result", "Decimal", "DecimalError"), "rewrite": [
+        (r"fn deserialize\(&self, _: &mut D\) -> Result<Decimal, D::Error>", "fn deserialize(&self) -> Result<Decimal, DecimalError>")]}),
+    # `impl Hash`: read as the function "what is fed to the Hasher"; `(a, b).hash(state)` of a pair of i128 is `write_i128(a)`
+    # followed by `write_i128(b)` (std's impls for tuples and integers), the primitive `Rt.hashFeedPair`
+    ("KHash", "src/lib.rs", "hash", "Decimal", {"as": "decimal_hash", "methods": {"as_integer_ratio": ("decimal_as_integer_ratio", ("tuple", ["i128", "i128"]))}, "rewrite": [
+        (r"fn hash<H: Hasher>\(&self, state: &mut H\) \{\s*([^;]*?)\.hash\(state\);\s*\}", r"fn hash(&self) -> HashFeed { hash_feed_pair(\1) }")]}),
 ]
 
 # functions that generated code may call but that are modelled by hand: params, return type, Lean head (with its fixed arguments)
@@ -2358,6 +2402,7 @@ EXTERNAL = {
     "i256_div_mod_floor": ([("x1", "i128"), ("x2", "i128"), ("y", "i128")], ("Option", ("tuple", ["i128", "i128"])),
                            "Model.i256DivModFloor prof", True),
     "i128_magnitude": ([("i", "i128")], "u8", "Model.i128Magnitude", False),
+    "hash_feed_pair": ([("p", ("tuple", ["i128", "i128"]))], "HashFeed", "Rt.hashFeedPair", False),
     # `u64::from_le(ptr::read_unaligned(bytes.as_ptr() as *const u64))`: the little-endian value of the first eight bytes (its
     # debug assertion `len >= 8` and its pointer read are dominated by the length test in `read_u64`, the only caller)
     "lit_read_u64_unchecked": ([("self", "AsciiDecLit")], "u64", "Rt.readU64LE", False),
@@ -2474,6 +2519,7 @@ def translate(repo):
                 vis = {k: v for k, v in sigs.items() if k not in CALL_SCOPE or g in CALL_SCOPE[k]}
                 em = Emit(name, params, eff_ret, vis, {**GLOBAL_CONSTS["*"], **GLOBAL_CONSTS.get(f, {})}, selfty)
                 em.self_consts = opts.get("self_consts", {})
+                em.method_override = opts.get("methods", {})
                 em.decl_ret = ret
                 if kfin is not None and body[2] is not None and body[2][0] in ("path", "method", "call"):
                     body = ("block", Emit.as_stmts(body), None)      # no value: the tail expression is evaluated for its effects
